@@ -659,7 +659,10 @@ class RZILTransformer(Transformer):
             )
         else:
             raise NotImplementedError(f"Assign type {assign.assign_type} not handled.")
-        self.add_op(assign.src)
+        src = self.add_op(assign.src)
+        if src.value_type != assign.dest.value_type:
+            # E1 op= E2 is E1 = E1 op (E2): the result is converted to the type of E1 (C11 6.5.16.2).
+            assign.set_src(self.init_a_cast(assign.dest.value_type, src))
 
     def assignment_expr(self, items):
         self.ext.set_token_meta_data("assignment_expr")
